@@ -108,6 +108,7 @@ Lemma deflate_index ad j x ad' r :
   deflate RA ad j x = Ok (ad', r) ->
   j + 1 < length ad /\ length ad' = length ad /\
   (forall i, j < i -> ix ad' i = ix ad i) /\
+  ix ad' j = ix ad (j + 1) /\
   forall t, pev (ix ad) 0 (j + 2) t = (t - x) * pev (ix ad') 0 (j + 1) t + r.
 Proof.
   unfold deflate. intros E. set (g := ix ad).
@@ -119,16 +120,18 @@ Proof.
      let '(adk, bk) := s in
      length adk = length ad /\
      (forall i, i < k \/ j < i -> nth i adk zero = g i) /\
+     ((k = j + 1)%nat /\ bk = g (j + 1)%nat \/ k <= j /\ nth j adk zero = g (j + 1)%nat) /\
      forall t, pev g k (j + 2 - k) t = (t - x) * pev (fun i => nth i adk zero) k (j + 1 - k) t + bk).
   apply (for_rev_from_inv_partial I) in E.
-  - unfold I in E. destruct E as (HL & Hfr & Hp). rewrite !Nat.sub_0_r in Hp.
-    split; [exact HL|]. split; [|exact Hp].
-    intros i Hi. apply Hfr. now right.
-  - unfold I. split; [reflexivity|]. split; [reflexivity|].
+  - unfold I in E. destruct E as (HL & Hfr & Hlead & Hp). rewrite !Nat.sub_0_r in Hp.
+    split; [exact HL|]. split; [|split; [|exact Hp]].
+    + intros i Hi. apply Hfr. now right.
+    + destruct Hlead as [(Hk & _)|(_ & Hl)]; [lia | exact Hl].
+  - unfold I. split; [reflexivity|]. split; [reflexivity|]. split; [left; split; [reflexivity | exact Hb0]|].
     intros t. replace (j + 2 - (j + 1))%nat with (1)%nat by lia. replace (j + 1 - (j + 1))%nat with (0)%nat by lia.
     cbn [pev]. change (g (j + 1)%nat) with (nth (j + 1) ad zero). rewrite <- Hb0. ring.
   - intros k [adk bk] [adk1 bk1] Hk HI Eb. unfold I in *.
-    destruct HI as (HL & Hfr & Hp).
+    destruct HI as (HL & Hfr & Hlead & Hp).
     unfold deflate_body in Eb. cbn [Nat.add] in Eb.
     apply bind_ok in Eb as (c & Ec & Eb).
     apply (rd_Ok_inv _ _ _ zero) in Ec as (Hk' & Hc).
@@ -136,9 +139,13 @@ Proof.
     apply upd_Ok_inv in Eu as (_ & ->).
     injection Eb as <- <-.
     split; [now rewrite upd_list_length|].
-    split.
+    split; [|split].
     + intros i Hi. rewrite nth_upd_list by exact Hk'.
       destruct (Nat.eqb_spec i k); [lia|]. apply Hfr. lia.
+    + right. rewrite nth_upd_list by exact Hk'.
+      destruct Hlead as [(Hkj & Hbk)|(Hkj & Hl)].
+      * assert (k = j) by lia. subst k. rewrite Nat.eqb_refl. split; [lia | exact Hbk].
+      * destruct (Nat.eqb_spec j k); [lia|]. split; [lia | exact Hl].
     + intros t.
       replace (j + 2 - k)%nat with ((S (j + 2 - S k)))%nat by lia.
       replace (j + 1 - k)%nat with ((S (j + 1 - S k)))%nat by lia.
@@ -162,7 +169,7 @@ Lemma deflate_spec_lemma ad j x ad' r :
   (forall t, ev (firstn (j + 2) ad) t = (t - x) * ev (firstn (j + 1) ad') t + r) /\
   r = ev (firstn (j + 2) ad) x.
 Proof.
-  intros E. apply deflate_index in E. destruct E as (Hj & HL & Hfr & Hp). unfold ix in Hfr, Hp.
+  intros E. apply deflate_index in E. destruct E as (Hj & HL & Hfr & _ & Hp). unfold ix in Hfr, Hp.
   assert (Hev : forall t, ev (firstn (j + 2) ad) t = (t - x) * ev (firstn (j + 1) ad') t + r).
   { intros t. specialize (Hp t). rewrite !pev_map in Hp.
     rewrite !map_nth_seq in Hp by lia. cbn [skipn] in Hp. exact Hp. }
@@ -171,6 +178,121 @@ Proof.
     + rewrite !skipn_length. lia.
     + intros n Hn. rewrite !nth_skipn_add. apply Hfr. lia.
   - rewrite (Hev x). ring.
+Qed.
+
+Lemma deflate_lead ad j x ad' r :
+  deflate RA ad j x = Ok (ad', r) -> nth j ad' zero = nth (j + 1) ad zero.
+Proof. intros E. apply deflate_index in E. destruct E as (_ & _ & _ & Hl & _). exact Hl. Qed.
+
+(* ---------- the whole deflation phase of poly_solve ---------- *)
+(* p recomposed from the values found and the residuals, in the order they were found (index n-1 first):
+   p(t) = (t - x_{n-1}) * ( (t - x_{n-2}) * ( ... ((t - x_0) * w + r_0) ... ) + r_{n-2} ) + r_{n-1} *)
+Fixpoint comp (L : list (K * K)) (w t : K) : K :=
+  match L with [] => w | (x, r) :: L' => (t - x) * comp L' w t + r end.
+
+Lemma comp_app L x r w t : comp (L ++ [(x, r)]) w t = comp L ((t - x) * w + r) t.
+Proof. induction L as [|[y s] L IH]; cbn [comp app]; [reflexivity | now rewrite IH]. Qed.
+
+(* with all residuals zero, comp is the product of the linear factors *)
+Fixpoint linprod (xs : list K) (t : K) : K :=
+  match xs with [] => one | x :: xs' => (t - x) * linprod xs' t end.
+Lemma comp_exact L w t : Forall (fun xr => snd xr = zero) L -> comp L w t = linprod (map fst L) t * w.
+Proof.
+  induction 1 as [|[x r] L Hr _ IH]; cbn [comp linprod map fst]; [ring|].
+  cbn in Hr. rewrite Hr, IH. ring.
+Qed.
+
+Lemma skipn_upd_list_ge (l : list K) i v k : i < k -> skipn k (upd_list l i v) = skipn k l.
+Proof.
+  revert i k; induction l as [|h tl IH]; intros i k H; [now destruct i, k|].
+  destruct k as [|k]; [lia|]. destruct i as [|i]; cbn [upd_list skipn]; [reflexivity|]. apply IH. lia.
+Qed.
+Lemma skipn_upd_list_at (l : list K) i v : i < length l -> skipn i (upd_list l i v) = v :: skipn (S i) l.
+Proof.
+  revert i; induction l as [|h tl IH]; intros i H; cbn in H; [lia|].
+  destruct i as [|i]; cbn [upd_list skipn]; [reflexivity|]. apply IH. lia.
+Qed.
+
+Lemma ev_firstn1 (l : list K) t : 0 < length l -> ev (firstn 1 l) t = nth 0 l zero.
+Proof. destruct l as [|h tl]; cbn; [lia | intros _; ring]. Qed.
+
+Lemma deflation_phase_lemma coeffs roots0 ad rs tr :
+  let n := (length coeffs - 1)%nat in
+  1 <= length coeffs -> length roots0 = n ->
+  for_rev 0 n (solve_body RA) (coeffs, roots0, []) = Ok (ad, rs, tr) ->
+  exists L : list (K * K),
+    map fst L = rev rs /\ length rs = n /\
+    map fst L = map (fun l => snap RA (lx l)) tr /\
+    forall t, ev coeffs t = comp L (nth n coeffs zero) t.
+Proof.
+  intros n H1 Hr0 E. unfold for_rev in E. rewrite Nat.sub_0_r in E.
+  pose (I := fun (k : nat) (s : list K * list K * list (lres K)) =>
+     let '(adk, rk, tk) := s in
+     length adk = length coeffs /\ length rk = n /\ nth k adk zero = nth n coeffs zero /\
+     exists L : list (K * K),
+       map fst L = rev (skipn k rk) /\ map fst L = map (fun l => snap RA (lx l)) tk /\
+       forall t, ev coeffs t = comp L (ev (firstn (k + 1) adk) t) t).
+  apply (for_rev_from_inv_partial I) in E.
+  - unfold I in E. destruct E as (HLa & HLr & Hlead & L & HL1 & HL2 & Hp).
+    exists L. cbn [skipn] in HL1. repeat split; auto.
+    intros t. rewrite (Hp t). rewrite ev_firstn1 by lia. now rewrite Hlead.
+  - unfold I. split; [reflexivity|]. split; [exact Hr0|]. split; [reflexivity|].
+    exists []. split.
+    + rewrite skipn_all2 by lia. reflexivity.
+    + split; [reflexivity|]. intros t. cbn [comp].
+      replace (n + 1)%nat with (length coeffs) by lia. now rewrite firstn_all.
+  - intros k [[adk rk] tk] [[adk1 rk1] tk1] Hk HI Eb. unfold I in *.
+    destruct HI as (HLa & HLr & Hlead & L & HL1 & HL2 & Hp).
+    unfold solve_body in Eb. cbn [Nat.add] in Eb.
+    apply bind_ok in Eb as (adv & Eadv & Eb).
+    unfold take_checked in Eadv. destruct (k + 2 <=? length adk) eqn:Hlen; [|discriminate].
+    injection Eadv as <-.
+    apply bind_ok in Eb as (l & _ & Eb).
+    apply bind_ok in Eb as (r' & Er & Eb). apply upd_Ok_inv in Er as (Hkr & ->).
+    apply bind_ok in Eb as ([ad' r] & Ed & Eb). injection Eb as <- <- <-. cbn [fst].
+    pose proof (deflate_lead _ _ _ _ _ Ed) as Hl'.
+    apply deflate_spec_lemma in Ed. destruct Ed as (HL' & _ & Hev & _).
+    split; [congruence|]. split; [now rewrite upd_list_length|].
+    split; [rewrite Hl'; replace (k + 1)%nat with (S k) by lia; exact Hlead|].
+    exists (L ++ [(snap RA (lx l), r)]). split; [|split].
+    + rewrite map_app. cbn [map fst]. rewrite HL1.
+      rewrite skipn_upd_list_at by exact Hkr. cbn [rev]. reflexivity.
+    + rewrite !map_app. cbn [map fst]. now rewrite HL2.
+    + intros t. rewrite comp_app. rewrite (Hp t).
+      replace (S k + 1)%nat with (k + 2)%nat by lia. now rewrite (Hev t).
+Qed.
+
+(* poly_solve without refinement on degree >= 4 IS the deflation phase *)
+Lemma poly_solve_is_deflation coeffs rs tr :
+  3 < length coeffs - 1 -> poly_solve RA coeffs false = Ok (rs, tr) ->
+  exists ad, for_rev 0 (length coeffs - 1) (solve_body RA) (coeffs, repeat zero (length coeffs - 1), []) = Ok (ad, rs, tr).
+Proof.
+  intros Hn E. unfold poly_solve in E.
+  apply bind_ok in E as (degree & Ed & E).
+  unfold usub in Ed. destruct (1 <=? length coeffs) eqn:H1; [|discriminate]. injection Ed as <-.
+  set (n := (length coeffs - 1)%nat) in *.
+  destruct (Nat.eqb_spec n 0); [lia|]. destruct (Nat.eqb_spec n 1); [lia|].
+  destruct (Nat.eqb_spec n 2); [lia|]. destruct (Nat.eqb_spec n 3); [lia|].
+  cbn [bind] in E.
+  destruct (Nat.ltb_spec 3 n); [|lia].
+  apply bind_ok in E as ([r4 t4] & E4 & E). injection E as <- <-.
+  apply bind_ok in E4 as ([[ad rr] tt] & Ef & E4). injection E4 as <- <-.
+  exists ad. exact Ef.
+Qed.
+
+Lemma deflation_recomposes_lemma coeffs rs tr :
+  3 < length coeffs - 1 -> poly_solve RA coeffs false = Ok (rs, tr) ->
+  exists L : list (K * K),
+    map fst L = rev rs /\ map fst L = map (fun l => snap RA (lx l)) tr /\
+    (forall t, ev coeffs t = comp L (nth (length coeffs - 1) coeffs zero) t) /\
+    (Forall (fun xr => snd xr = zero) L ->
+     forall t, ev coeffs t = linprod (rev rs) t * nth (length coeffs - 1) coeffs zero).
+Proof.
+  intros Hn E. destruct (poly_solve_is_deflation _ _ _ Hn E) as (ad & Ef).
+  apply deflation_phase_lemma in Ef; [|lia | apply repeat_length].
+  destruct Ef as (L & H1 & _ & H2 & H3).
+  exists L. repeat split; auto.
+  intros Hz t. rewrite (H3 t), comp_exact by exact Hz. now rewrite H1.
 Qed.
 
 End Ring.
